@@ -22,6 +22,11 @@ class Gen:
         self.rng = rng
         self.sem = sem          # semantic run: only operators M-Ops models, loops that terminate
         self.counters = []
+        self.in_loop = 0
+
+    def sem_ops(self):
+        """inside a loop nothing may double: `s += s` on a string, 25 times over, does not fit into memory"""
+        return [o for o in BIN_SEM if o != "+"] if self.in_loop else BIN_SEM
 
     def lit(self):
         r = self.rng
@@ -46,7 +51,7 @@ class Gen:
         k = r.randrange(16)
         if k < 4:
             if self.sem:
-                op = r.choice(BIN_SEM) if r.randrange(12) else r.choice(["in", "instanceof"])
+                op = r.choice(self.sem_ops()) if r.randrange(12) else r.choice(["in", "instanceof"])
             else:
                 op = r.choice(BIN_ALL)
             return ("b", op, self.expr(d - 1), self.expr(d - 1))
@@ -57,7 +62,7 @@ class Gen:
         if k < 10:
             return ("c", self.expr(d - 1), self.expr(d - 1), self.expr(d - 1))
         if k < 13:
-            ops = ["=", "&&=", "||=", "??="] + [o + "=" for o in (BIN_SEM if self.sem else BIN_ALL) if o not in ("==", "!=", "===", "!==", "<", "<=", ">", ">=", "in", "instanceof")]
+            ops = ["=", "&&=", "||=", "??="] + [o + "=" for o in (self.sem_ops() if self.sem else BIN_ALL) if o not in ("==", "!=", "===", "!==", "<", "<=", ">", ">=", "in", "instanceof")]
             return ("a", self.var(), r.choice(ops), self.expr(d - 1))
         if k == 13:
             return ("q", self.expr(d - 1), self.expr(d - 1))
@@ -80,11 +85,13 @@ class Gen:
         if k in (6, 7) and len(self.counters) < 2:
             i = "ij"[len(self.counters)]
             self.counters.append(i)
+            self.in_loop += 1
             n = r.randrange(0, 6)
             body = ("B", [self.stmt(d - 1) for _ in range(r.randrange(0, 3))] + [("E", ("p", i, "+", r.choice(["pre", "post"])))])
             cond = ("b", "<", ("V", i), ("N", n))
             if r.randrange(3) == 0:
                 cond = ("l", "&&", cond, ("b", "!==", ("V", r.choice(VARS)), ("N", r.randrange(4))))
+            self.in_loop -= 1
             self.counters.pop()
             reset = ("E", ("a", i, "=", ("N", 0)))
             loop = ("W", cond, body) if k == 6 else ("D", body, cond)
